@@ -25,6 +25,7 @@ ROUTINES = ["cell::apply_pressure_on_surface", "cell::apply_surface_tension_and_
 
 
 def declare(rep):
+    rep.rule("C02.normal-guard", "update_face_normal_and_area skips the normalisation only for an exactly zero norm (no absolute tolerance)", floor=1)
     rep.rule("C02.tension-ledger", "tension/elasticity: forces of a face sum to zero and have zero torque", floor=2)
     rep.rule("C02.tension-gradient", "tension/elasticity: force_k == (-tension(this face type) + elasticity factor) * dA/dx_k", floor=3)
     rep.rule("C02.pressure-form", "pressure: each node of a face receives normal*pressure_*area/3 of that face", floor=3)
@@ -46,11 +47,24 @@ def is_pos_atom(name):
 def run(rep, prog, tier):
     if not rep.rules:
         declare(rep)
-    tension(rep, prog)
+    try:
+        face_normal_area(prog)
+        fnn = [f for f in prog.fns("cell::update_face_normal_and_area") if f["params"][0]["t"].startswith("face")][0]
+        rep.ok("C02.normal-guard", prog, fnn, None, "the face normal is left un-normalised only for an exactly zero norm")
+    except NormalGuard as g:
+        rep.violation("C02.normal-guard", prog, g.fn, g.node, "face normal dropped under an absolute threshold", g.msg)
+        rep.note("tension identities not evaluated: they depend on the normal computed by update_face_normal_and_area")
+    else:
+        tension(rep, prog)
     pressure(rep, prog)
     angles(rep, prog)
     bending(rep, prog)
     translation(rep, prog)
+
+
+class NormalGuard(Exception):
+    def __init__(self, fn, node, msg):
+        self.fn, self.node, self.msg = fn, node, msg
 
 
 def face_normal_area(prog):
@@ -59,6 +73,17 @@ def face_normal_area(prog):
     if len(fns) != 1:
         raise AnalysisBroken("cell::update_face_normal_and_area(face&) not found")
     fn = fns[0]
+    # the only legitimate reason not to normalise is an exactly zero norm (division guard); a threshold is an
+    # absolute tolerance that silently removes the normal of small faces
+    for n in walk(fn["body"]):
+        if n.get("k") == "ConditionalOperator":
+            c = strip(n["c"][0])
+            divides = any(x.get("k") == "CXXOperatorCallExpr" and x.get("op") == "/" for x in walk(n))
+            if divides:
+                lit = strip(c["c"][1]) if c.get("k") == "BinaryOperator" and len(c.get("c", [])) == 2 else {}
+                exact = c.get("k") == "BinaryOperator" and c.get("op") in ("==", "!=") and lit.get("k") in ("FloatingLiteral", "IntegerLiteral") and float(lit["v"]) == 0.0
+                if not exact:
+                    raise NormalGuard(fn, n, "the normalisation of the face normal is skipped under '%s' instead of only for an exactly zero norm: faces whose (tiny but non-zero) area falls under that absolute threshold get a zero normal, so pressure and tension forces silently vanish on them (net force/torque no longer zero for small cells)" % short(c, 70))
     ev = S.SymEval(prog, fn)
     try:
         ev.exec_block(fn["body"].get("c", []))
